@@ -23,6 +23,10 @@ package rules
 //   M12 whole `if result == ""` guard dropped                    → R-C02-3 continue…, loop left early only at END…
 //   M4  break→continue at the END node                           → R-C02-3 no Handle once END was seen, node passed over…, exhausted flow…
 //   M20 END block dropped                                        → R-C02-3 Handle never on an END node
+//   E0  END test hoisted above the skip test (seeded C02/a)      → R-C02-3 END node jumped over while another target is pending
+//   E1  END honoured inside the skip branch                      → same
+//   E2  skip test exempts END nodes (`&& node.FilterName != END`)→ same
+//   E3  `if flow[i].FilterName == END { return …, true }` first  → same
 //   M13 `sawEnd = true` dropped before the result break          → R-C02-3 END is reported to the caller
 //   M6  next compared with node.FilterName instead of alias      → R-C02-3 jump target compared with the node's alias
 //   M17 `next != alias` → `next == alias`                        → R-C02-3 Handle only when no other jump target is pending, node passed over…
@@ -75,6 +79,8 @@ package rules
 //   B3 GlobalFilter: Validate with if-init errors in the other order; Handle with renamed
 //      locals, loads reordered, no comma-ok.
 //   B4 flow loop as `for i := 0; i < len(flow); i++`.
+//   P5 END test precomputed into a bool before the skip test but acted on after it;
+//   P6 skip and END tests as the cases of a tagless switch (in that order), END by early return.
 
 import (
 	"go/ast"
@@ -106,7 +112,7 @@ type c02Anchors struct {
 func c02(c *core.Ctx) string {
 	c.Rule("R-C02-1", "namespace before handle: every state reaching the dynamic call Filter.Handle(ctx) in the flow loop has, in the same iteration, last called ctx.UseNamespace(N.Namespace) with N the node whose filter is invoked; UseNamespace has no other call site and Context.activeNs no other writer")
 	c.Rule("R-C02-2", "forward only: the flow loop is a single range loop (or i++ loop) over the []FlowNode argument, its key/value variables and the ranged slice are never assigned, no goto, no nested loop, no recursion, Handle is not called from a closure")
-	c.Rule("R-C02-3", "loop invariant of jump/END (all paths): an iteration that ran a filter continues only with (result==\"\" ∧ next==\"\") or (result!=\"\" ∧ next==N.JumpIf[result] ∧ next!=\"\" ∧ next!=END); an iteration is passed over only with next!=\"\" ∧ next!=alias(N) and changes nothing; Handle is reached only with (next==\"\" ∨ next==alias(N)), N not an END node and sawEnd false; the loop is left early only at an END node or with result!=\"\" ∧ (next==\"\" ∨ next==END), and then the bool result is true; after exhaustion it is false; alias(N) is the same FlowNode method that validation counts jump targets by")
+	c.Rule("R-C02-3", "loop invariant of jump/END (all paths): an iteration that ran a filter continues only with (result==\"\" ∧ next==\"\") or (result!=\"\" ∧ next==N.JumpIf[result] ∧ next!=\"\" ∧ next!=END); an iteration is passed over only with next!=\"\" ∧ next!=alias(N) and changes nothing; Handle is reached only with (next==\"\" ∨ next==alias(N)), N not an END node and sawEnd false; the loop is left early only at an END node that is reached (next==\"\" ∨ next==alias(N), not one being jumped over) or with result!=\"\" ∧ (next==\"\" ∨ next==END), and then the bool result is true; after exhaustion it is false; alias(N) is the same FlowNode method that validation counts jump targets by")
 	c.Rule("R-C02-4", "returned result: the string result of the flow loop function is the variable assigned from Filter.Handle, which has no other writer than its \"\" initialisation; callers return the string result of the last flow they ran")
 	c.Rule("R-C02-5", "before/main/after gating (all paths of every caller of the flow loop): order before → main → after, each flow at most once and with that pipeline's own flow, a flow is skipped only if its pipeline is nil or an earlier flow reported END, none runs after END was reported; GlobalFilter passes the pipelines built from the beforePipeline/afterPipeline spec keys in that order")
 	c.Rule("R-C02-6", "who may call Filter.Handle: the only dynamic call site of filters.Filter.Handle in production code is the one in the flow loop, and the flow loop is only called from Pipeline's handler methods")
@@ -747,6 +753,10 @@ func c02FlowLoop(c *core.Ctx, a *c02Anchors) {
 				st.Set(evNS, flow.False)
 				st.Set(evLookup, flow.False)
 				st.Set(evTouched, flow.False)
+				// what was learned about the previous node's alias says nothing about this node
+				for _, k := range aliasKeys {
+					st.Set(k, flow.Unknown)
+				}
 			case backKind:
 				if !st.Is(evIn, flow.True) {
 					return
@@ -911,7 +921,7 @@ func c02FlowLoop(c *core.Ctx, a *c02Anchors) {
 	}
 
 	// exits: decision table
-	var badEarly, badEarlyVal, badDoneVal, badRet *flow.Exit
+	var badEarly, badEarlyVal, badDoneVal, badRet, badEndJump *flow.Exit
 	early, done := 0, 0
 	for _, ex := range res.Exits {
 		if ex.Kind != flow.ExitReturn {
@@ -940,6 +950,11 @@ func c02FlowLoop(c *core.Ctx, a *c02Anchors) {
 			if !jEnd && !jRes && badEarly == nil {
 				badEarly = ex
 			}
+			// an END node ends the flow only when it is *reached*: with a jump to another
+			// node pending it lies between the jumping node and its target and is skipped
+			if jEnd && !(val(st, kNextEmpty) == flow.True || isTrue(st, aliasKeys)) && badEndJump == nil {
+				badEndJump = ex
+			}
 			if bv != flow.True && badEarlyVal == nil {
 				badEarlyVal = ex
 			}
@@ -961,6 +976,9 @@ func c02FlowLoop(c *core.Ctx, a *c02Anchors) {
 	c.Check(badEarly == nil, "R-C02-3", cons+"|loop left early only at END or unmapped/END-mapped result", pos(c, rng),
 		sprintf("%d early exits, each at an END node or with result!=\"\" ∧ (JumpIf[result]==\"\" ∨ ==END)", early),
 		"the flow loop is left before the flow is exhausted on a path that is neither an END node nor a non-empty result that is unmapped or mapped to END: the remaining filters do not run", exw(badEarly)...)
+	c.Check(badEndJump == nil, "R-C02-3", cons+"|END node jumped over while another target is pending", pos(c, rng),
+		"every exit at an END node has next==\"\" or next==alias(N): an END node between a jumping node and its target is skipped like any other node",
+		"the flow ends at an END node although a jump to another node is pending (neither next==\"\" nor next==alias(N) is established when the END test fires): an END node lying between a jumping filter and its jumpIf target stops the pipeline instead of being skipped, the target never runs and END is reported to the caller", exw(badEndJump)...)
 	c.Check(badEarlyVal == nil, "R-C02-3", cons+"|END is reported to the caller", pos(c, rng),
 		"every early exit returns sawEnd == true",
 		"the flow ends at END / an unmapped result but does not report it (bool result not true): the caller goes on with the main/after flow although the pipeline ended", exw(badEarlyVal)...)
